@@ -106,6 +106,8 @@ def to_coq(c):
             pr, coq_str(c["name"]), values(c.get("sent")), segs(c.get("input")), obs_err(o), o.get("id") or "0",
             o.get("typ", 0), coq_str(o.get("name", "")), values(o.get("fields")), o.get("alloc", 0),
             coq_str(c["rname"]), c.get("cap", 0), segs(c.get("reply")), rerr, values(o.get("rfields")))
+    if op == "e2e":
+        return "CTRead 0 0 true 0"            # oracle only: real websocket frames of up to 3 MiB
     if op == "hold":
         def hobs(h):
             return "(%d, %s, %d, %s, %s)" % (ERRCODE.get(h.get("err", ""), 8), h.get("id") or "0", h.get("typ", 0),
@@ -212,6 +214,12 @@ def impl_oracle(c):
     o = c["obs"]
     if o.get("crash"):
         return "decoding crashed the process: %s" % o["crash"][:200]
+    if c["op"] == "e2e":
+        # a legal frame, however large its field: the value arrives, the tunnel stays up
+        if o.get("rerr") != "ok" or o.get("n") != c["avail"] or o.get("err") != "ok":
+            return ("big frame: %s of %d bytes between the real client and the real endpoint: result %s (%r bytes), "
+                    "endpoint side %s" % (c["name"], c["avail"], o.get("rerr"), o.get("n"), o.get("err")))
+        return None
     if c["op"] == "wrap":
         return wrap_oracle(c)
     if c["op"] == "hold":
@@ -265,9 +273,27 @@ def impl_oracle(c):
         return "trailing bytes not reported"
     return None
 
+def big_sizes():
+    """Payload sizes of the big-frame stream: both sides of every integer the package names (the
+    translator lists literals and constants >= 256: l-1, l, l+1, 2l+1), 1 MiB + 1 KiB +- 1, 3 MiB."""
+    import re
+    lits = []
+    try:
+        m = re.search(r"gen_sni_int_literals : list N := \[([^\]]*)\]",
+                      open(os.path.join(vlib.COQ, "theories", "Gen", "WireSchema.v")).read())
+        lits = [int(x.replace("%N", "")) for x in m.group(1).split(";") if x.strip()] if m else []
+    except OSError:
+        pass
+    sizes = {(1 << 20) + 1023, (1 << 20) + 1024, (1 << 20) + 1025, 3 << 20}
+    for l in lits:
+        if l <= 2 << 20:
+            sizes |= {l - 1, l, l + 1, 2 * l + 1}
+    return sorted(sizes)
+
+
 def explore(ck, binp, seed, ncases, model_ok, first):
     cases = []
-    rc, out, err = vlib.sh2([binp, "-seed", str(seed), "-n", str(ncases)], timeout=1500)
+    rc, out, err = vlib.sh2([binp, "-seed", str(seed), "-n", str(ncases), "-sizes", ",".join(map(str, big_sizes()))], timeout=1500)
     if rc != 0:
         ck.broken.append({"what": "harness run failed", "detail": err[-1500:]})
     for line in out.splitlines():
@@ -280,7 +306,8 @@ def explore(ck, binp, seed, ncases, model_ok, first):
         ck.count(c["stream"], key=(c["op"], c.get("name"), json.dumps(c.get("input")),
                                    json.dumps(c.get("fields")), c.get("cap"), c.get("maxread"), c.get("avail"),
                                    c.get("buflen"), c.get("replen"), c.get("shape"), c.get("scen"), json.dumps(c.get("sent")),
-                                   json.dumps(c.get("rsent")), c.get("cut"), json.dumps(c.get("frames"))),
+                                   json.dumps(c.get("rsent")), c.get("cut"), json.dumps(c.get("frames")),
+                                   c.get("avail") if c["op"] == "e2e" else None),
                  trivial=trivial)
         why = impl_oracle(c)
         if why and c.get("shape"):
